@@ -219,7 +219,9 @@ PROPS["C19"] = {
 
 PROPS["C11"] = {
     "level": "proof",
-    "contracts": [("contracts.load", "xdis.load:load_module_from_file_object/escape")],
+    "contracts": [("contracts.load", "xdis.load:load_module_from_file_object/escape"),
+                  # the only exit of the readers' container loops on a truncated stream: r_object raises at end of file
+                  ("contracts.unmarshal_dispatch", "xdis.unmarshal:_VersionIndependentUnmarshaller.r_object/at-eof")],
     "ground": [("ground.effects", "check_c11")],
     "bounded": [("ground.fuzz_load", "check")],
     "assumptions": [],
@@ -290,7 +292,7 @@ _T = {
          "field values are abstract tokens (identity + type): a plumbing proof; types.CodeType is an external constructor modelled by its positional order (run on real code objects under each host by a bounded native -> portable -> native round trip); a frame condition (no attribute added to the portable object) is part of the contract."),
  "C19": ("All three line-table encoders behind freeze() are proved with loop invariants against ghost transcriptions of CPython's readers (pyvc HAcc: the byte string under construction is tracked as the state the reader would be in after reading it): Code3.encode_lineno_tab (3.0-3.9; unsigned reader of 3.0-3.5, signed reader of 3.6-3.9, with and without decreasing lines), Code15.encode_lineno_tab (1.5-2.7) and Code310.encode_lineno_tab (3.10 range format, including its nested emitter function and the 'no line' prefix), for every table of strictly increasing offsets whose consecutive lines differ, every first line, every gap size: every appended pair is two bytes in 0..255; whenever the reader would yield a line start it is exactly the table entry it must be; after entry k it has yielded exactly the first k (3.10: k+1) entries and stands at the right offset and line; the 3.10 ranges end at len(co_code). freeze()'s dict/list normalisation and the end-to-end result are additionally round-tripped through xdis's and the matching CPython's decoders (2.7, 3.7-3.10): bounded.",
          "the ghost readers are transcriptions of dis.findlinestarts (<= 3.9 without the 3.8+ end-of-code cut; 3.10 over co_lines()) - trusted, cross-checked by the bounded round trip through the real CPythons; duplicate consecutive lines and equal offsets are outside the proved domain (a dict has distinct offsets; the readers themselves drop duplicate lines); unsigned tables: first offset 0 and lines must not decrease (the encoder skips such entries by design); 3.10: the last entry's range must be non-empty (len(co_code) beyond the last offset)."),
- "C11": ("Exception escape is proved for load_module_from_file_object: for the magic word of every final release, every PyPy magic of the corpus, every other magic in xdis's own tables, the dropbox magics and unknown words, for all file contents of at least 50 bytes (what load_module guarantees) and whatever the code readers do - each external reader may raise an exception of unknown class at its call - the function returns a 7-tuple (or the dropbox decoder's result) or raises ImportError, and closes nothing twice; a frame obligation per function reachable from load_module (151, over an over-approximated call graph) shows no exec/eval/compile/dynamic import/file-system write primitive. Termination, memory and the unmarshaller's own behaviour on corrupt data are covered by a bounded hostile-input sweep (prefixes, byte flips, insertions, adversarial lengths and references, deep nesting, every magic word) under time and address-space limits with CPython audit hooks.",
+ "C11": ("r_object is proved to raise when the stream position is at the end of the data (the only exit the readers' container loops have on a truncated or hostile stream; that the loops terminate is not proved). Exception escape is proved for load_module_from_file_object: for the magic word of every final release, every PyPy magic of the corpus, every other magic in xdis's own tables, the dropbox magics and unknown words, for all file contents of at least 50 bytes (what load_module guarantees) and whatever the code readers do - each external reader may raise an exception of unknown class at its call - the function returns a 7-tuple (or the dropbox decoder's result) or raises ImportError, and closes nothing twice; a frame obligation per function reachable from load_module (151, over an over-approximated call graph) shows no exec/eval/compile/dynamic import/file-system write primitive. Termination, memory and the unmarshaller's own behaviour on corrupt data are covered by a bounded hostile-input sweep (prefixes, byte flips, insertions, adversarial lengths and references, deep nesting, every magic word) under time and address-space limits with CPython audit hooks.",
          "KeyboardInterrupt/SystemExit not modelled; load_module's size check and open() are assumed to see the same file (no race); RecursionError raised inside the readers is converted to ImportError like any other exception (counts as failing cleanly); static frame analysis recognises primitives by spelling; the unmarshaller's termination on hostile input is bounded evidence only."),
  "C18": ("History independence is decided as a frame condition: for each of the 235 functions reachable from the public operations (load_module, disassemble_file, get_opcode / get_opcode_module, make_std_api, marsh dump(s)/load(s), load_code, Bytecode, the label and line-start finders) one obligation shows that its body writes no module-level or class-level container, no mutable default argument (also not by letting it escape into an attribute), keeps no memo (@lru_cache) and patches no table except by save/restore in a finally block; remap_opcodes is the documented exception. Two alias forms are tracked statically (a local bound to a module-/class-level object; self.attr bound to another object's attribute without copying); other aliasing is left to the bounded history replay: a 97-operation catalogue, each operation alone in a fresh interpreter vs inside random sequences, with digests of every process-wide container before and after each operation.",
          "call graph over-approximated by name (see frames.ASSUMPTIONS); import-time table construction (init_opdata, fields2copy) is not reachable from the public operations and is not checked; aliasing: bounded evidence only."),
